@@ -323,6 +323,59 @@ func (m *Machine) intBinop(op token.Token, ii intInfo, x, y Value) Value {
 			return m.mkInt(ii, c.IDiv(a, c.BigInt(new(big.Int).Lsh(big.NewInt(1), uint(b.I.Int64())))))
 		}
 	}
+	// bitwise operation of a small non-negative value with a non-negative constant: bit by bit
+	if op == token.OR || op == token.AND || op == token.XOR || op == token.AND_NOT {
+		v, k := a, b
+		if a.Op == smt.OpConst && op != token.AND_NOT {
+			v, k = b, a
+		}
+		if k.Op == smt.OpConst && k.I.Sign() >= 0 {
+			if lo, hi := m.interval(v); lo != nil && hi != nil && lo.Sign() >= 0 && hi.BitLen() <= 16 {
+				nbits := hi.BitLen()
+				if op != token.AND && op != token.AND_NOT && k.I.BitLen() > nbits {
+					nbits = k.I.BitLen()
+				}
+				var sum []*smt.Term
+				for i := 0; i < nbits; i++ {
+					p2 := c.BigInt(new(big.Int).Lsh(big.NewInt(1), uint(i)))
+					bit := c.Mod(c.IDiv(v, p2), c.Int(2)) // 0 or 1
+					kb := k.I.Bit(i) == 1
+					var rb *smt.Term
+					switch op {
+					case token.OR:
+						if kb {
+							rb = c.Int(1)
+						} else {
+							rb = bit
+						}
+					case token.AND:
+						if kb {
+							rb = bit
+						} else {
+							rb = c.Int(0)
+						}
+					case token.XOR:
+						if kb {
+							rb = c.Sub(c.Int(1), bit)
+						} else {
+							rb = bit
+						}
+					case token.AND_NOT:
+						if kb {
+							rb = c.Int(0)
+						} else {
+							rb = bit
+						}
+					}
+					sum = append(sum, c.Mul(p2, rb))
+				}
+				if len(sum) == 0 {
+					return m.mkInt(ii, c.Int(0))
+				}
+				return m.mkInt(ii, c.Add(sum...))
+			}
+		}
+	}
 	unsupported("integer binop %s on symbolic operands", op)
 	return nil
 }
@@ -1085,12 +1138,19 @@ func (m *Machine) callBuiltin(caller *frame, callpos token.Pos, fn *ssa.Builtin,
 		if len(args) == 1 {
 			return args[0]
 		}
+		base := args[0].([]Value)
+		var add []Value
 		switch s := args[1].(type) {
 		case string, *BStr:
 			b, _ := toBStr(s)
-			return append(args[0].([]Value), b.B...)
+			add = b.B
+		default:
+			add = args[1].([]Value)
 		}
-		return append(args[0].([]Value), args[1].([]Value)...)
+		if m.TrackShared && len(add) > 0 && cap(base) > len(base) && m.sharedCells[&base[:cap(base)][len(base)]] {
+			m.noteSharedWrite("append into the spare capacity of a shared slice")
+		}
+		return append(base, add...)
 
 	case "copy":
 		src := args[1]
@@ -1099,7 +1159,11 @@ func (m *Machine) callBuiltin(caller *frame, callpos token.Pos, fn *ssa.Builtin,
 			b, _ := toBStr(s)
 			src = b.B
 		}
-		return int64(copy(args[0].([]Value), src.([]Value)))
+		dst := args[0].([]Value)
+		if n := min(len(dst), len(src.([]Value))); m.TrackShared && n > 0 && m.sharedCells[&dst[0]] {
+			m.noteSharedWrite("copy into a shared slice")
+		}
+		return int64(copy(dst, src.([]Value)))
 
 	case "delete":
 		args[0].(*OMap).Delete(m, args[1])
